@@ -28,6 +28,7 @@ type Obligation struct {
 	Timeout   int
 	Solvers   []string
 	InputSyms map[string]string
+	Instances int
 }
 
 type Verifier struct {
@@ -56,6 +57,8 @@ type Verifier struct {
 	siteCount    map[string]int
 	negRefs      int
 	caseTag      string
+	topFrame     *Frame
+	frameTargets []ModTarget
 	pathSeq      map[string]int
 	curCon       *Contract
 	maxPaths     int
@@ -144,9 +147,10 @@ func (v *Verifier) addObl(name, kind, desc string, p token.Position, st *State, 
 				}
 				split(sfx, extra, c.Subst(g.Args[0], m), depth+1)
 			}
-		case g.Op == "and" && depth < 12 && len(g.Args) <= 8 && suffix != "":
-			// only split conjunctions below a case split, to keep obligation counts stable
-			pieces = append(pieces, piece{suffix, extra, g})
+		case g.Op == "and" && depth < 12 && len(g.Args) <= 16:
+			for i, a := range g.Args {
+				split(fmt.Sprintf("%s.%d", suffix, i), extra, a, depth+1)
+			}
 		default:
 			pieces = append(pieces, piece{suffix, extra, g})
 		}
@@ -187,6 +191,11 @@ func (v *Verifier) execBlock(fr *Frame, st *State, stmts []ast.Stmt) []*State {
 			if c.ctl != CtlNormal {
 				done = append(done, c)
 				continue
+			}
+			if fr.fi != nil && fr.fi.CutAt != nil && fr.depth == 0 {
+				for _, cut := range fr.fi.CutAt[s] {
+					v.doCut(fr, c, cut, s.Pos())
+				}
 			}
 			next = append(next, v.execStmt(fr, c, s)...)
 		}
@@ -568,7 +577,41 @@ func (v *Verifier) execSwitch(fr *Frame, st *State, x *ast.SwitchStmt, label str
 		e.assume(noneMatched)
 		outs = append(outs, e)
 	}
-	return v.joinNormals(base, outs)
+	if v.curCon != nil && v.curCon.JoinSwitch || fr.depth > 0 || fr.inSpec {
+		return v.joinNormals(base, outs)
+	}
+	// keep the cases as separate paths (per-case obligations stay small)
+	var res []*State
+	for _, o := range outs {
+		if o.ctl != CtlDead {
+			res = append(res, o)
+		}
+	}
+	return res
+}
+
+// doCut proves an intermediate assertion with extra spec functions revealed and then
+// assumes it as evaluated under the function's own reveal set.
+func (v *Verifier) doCut(fr *Frame, st *State, cut *Cut, pos token.Pos) {
+	if st.ctl != CtlNormal {
+		return
+	}
+	saved := v.reveal
+	wide := map[string]bool{}
+	for k := range saved {
+		wide[k] = true
+	}
+	for k := range cut.Reveal {
+		wide[k] = true
+	}
+	save := fr.scopeAt
+	fr.scopeAt = pos
+	v.reveal = wide
+	goal := v.asBool(v.evalSpec(fr, st, cut.Clause.Expr), pos)
+	v.reveal = saved
+	v.obligeNamed(fr, st, fmt.Sprintf("cut%d", cut.Ord), pos, goal, "intermediate assertion (revealed): "+cut.Clause.Text)
+	st.assume(v.asBool(v.evalSpec(fr, st, cut.Clause.Expr), pos))
+	fr.scopeAt = save
 }
 
 func mkInt(i int64) constant.Value { return constant.MakeInt64(i) }
@@ -686,9 +729,18 @@ func (v *Verifier) execLoop(fr *Frame, st *State, node ast.Node, pos token.Pos, 
 		}
 		h.heaps[k] = c.Fresh(fmt.Sprintf("H@L%d$%s", ord, k), old.Sort)
 	}
-	// 4. assume invariants
+	// 4. assume invariants; the function's heap frame is an implicit invariant of every loop
 	for _, cl := range invs {
 		h.assume(v.asBool(v.evalSpec(fr, h, cl.Expr), pos))
+	}
+	frameKeys := hkeys
+	if v.topFrame == nil || v.curCon == nil {
+		frameKeys = nil
+	}
+	for _, k := range frameKeys {
+		if f := v.heapFrameFormula(h, k); f != nil {
+			h.assume(f)
+		}
 	}
 	// 5. condition
 	cd := cond(h)
@@ -714,6 +766,11 @@ func (v *Verifier) execLoop(fr *Frame, st *State, node ast.Node, pos token.Pos, 
 					for _, cl := range invs {
 						t := v.asBool(v.evalSpec(fr, p, cl.Expr), pos)
 						v.obligeNamed(fr, p, fmt.Sprintf("loop%d.inv%d.preserve", ord, cl.Ord), pos, t, "loop invariant preserved: "+cl.Text)
+					}
+					for _, k := range frameKeys {
+						if f := v.heapFrameFormula(p, k); f != nil {
+							v.obligeNamed(fr, p, fmt.Sprintf("loop%d.frame[heap %s]", ord, heapKeyName(k)), pos, f, "loop keeps the function's heap frame")
+						}
 					}
 				}
 			case o.ctl == CtlBreak && (o.label == "" || o.label == label):
